@@ -22,6 +22,11 @@ type gen struct {
 	depth  int
 	cls    []string // names of the enclosing named classes (constructors use the innermost)
 	spring bool     // this unit prefers annotation names the tool reacts to
+	// added later (zero value = the plain variant)
+	layout     int    // 0 LF | 1 CRLF | 2 no final newline | 3 everything on as few lines as possible | 4 CR only
+	eofComment string // a comment after the last token, ending the file without newline
+	bulkDone   bool   // the unit already has its bulk member
+	nbService  bool   // the unit imports zz.nb.NbService of the 3-file project and implements it
 }
 
 func newGen(t *rapid.T) *gen {
@@ -75,6 +80,12 @@ var commentShapes = []string{
 	"/* c */", "//\n", "/**/", "// TODO: fix this\n", "/* TODO */", "// FIXME\n", "/** doc\n * TODO(bob): later\n */",
 	"// TODO(a.b+c@d): y\n", "//todo:::\n", "// TODO ()\n", "/* fixme(x)*/", "// заметка TODO 漢字\n", "/* ünï */", "//TODO\n",
 	"// # not python\n", "/* * */", "// todo(me) : (you)\n", "/*TODO(a):*/", "// FIXME: ſ ı\n", "/***/",
+	// boundary lengths of the text after the marker, markers cut short or run on, assignee brackets of every shape
+	"//a\n", "//ab\n", "//abc\n", "//abcd\n", "// done\n", "//abcde\n", "/*ab*/", "/*a*/", "// T\n", "// TO\n", "// TOD\n", "// FIXM\n", "//FIX\n",
+	"// TODOS\n", "//todoist x\n", "// FIXMEE\n", "// TODO(\n", "// TODO(a\n", "// TODO)\n", "// TODO(a)\n", "//TODO(a)b\n", "// TODO(a):\n", "// TODO :\n", "// TODO:\n",
+	"// TODO\t(tab) x\n", "// TODO(ünï) x\n", "// TODO(a b) c\n", "// TODO((a)) b\n", "// TODO(a)(b)\n", "// TODO() x\n", "// f\u0131xme x\n", "// \uff34\uff2f\uff24\uff2f x\n",
+	"/*TODO*/", "/*FIXME*/", "/* TODO(x) */", "/** TODO */", "/*\n * FIXME(bob): multi\n * line\n */", "/* TODO\n*/", "/*\n TODO */", "/* TODO: a */ /* FIXME: b */",
+	"// TODO TODO FIXME\n", "// TODO: // nested\n", "// TODO: /* nested */\n", "/* TODO: // nested */", "// TODO: \"quoted\" 'c'\n", "//  \t \n",
 }
 
 func (g *gen) maybeComment() {
@@ -106,23 +117,63 @@ func (g *gen) render() string {
 				paren--
 			}
 		case "{", "}", ";":
-			if paren == 0 {
+			if paren == 0 && g.layout != 3 {
 				sb.WriteByte('\n')
 				nl = true
 			}
 		}
 	}
-	return sb.String()
+	text := sb.String()
+	switch g.layout {
+	case 1:
+		text = strings.ReplaceAll(text, "\n", "\r\n")
+	case 2:
+		text = strings.TrimRight(text, "\n")
+	case 4:
+		text = strings.ReplaceAll(text, "\n", "\r")
+	}
+	if g.eofComment != "" {
+		if text != "" && !strings.HasSuffix(text, "\n") && !strings.HasSuffix(text, "\r") {
+			text += " "
+		}
+		text += g.eofComment
+	}
+	return text
+}
+
+// layoutAndTail draws the layout of the rendered text and the comment that may end the file. It is
+// called after the unit has been generated, so that the structure shrinks independently of it.
+func (g *gen) layoutAndTail() {
+	switch rapid.IntRange(0, 15).Draw(g.t, "layout") {
+	case 12:
+		g.use("layout.crlf")
+		g.layout = 1
+	case 13:
+		g.use("layout.noFinalNewline")
+		g.layout = 2
+	case 14:
+		g.use("layout.fewLines")
+		g.layout = 3
+	case 15:
+		g.use("layout.crOnly")
+		g.layout = 4
+	}
+	if rapid.IntRange(0, 9).Draw(g.t, "eofComment") == 9 {
+		g.use("hidden.commentAtEndOfFile")
+		g.eofComment = strings.TrimSuffix(commentShapes[g.n(len(commentShapes))], "\n")
+	}
 }
 
 // ---------------------------------------------------------------------------------------
 // names
 
 var (
-	lowerNames  = []string{"a", "b", "x", "foo", "bar", "value", "i", "it", "$v", "_u", "x1", "getName", "setName", "isOk", "nullable", "get", "set", "is", "main", "test", "of", "переменная", "ünï", "变量", "𝒳y", "ſ", "émile"}
-	upperNames  = []string{"A", "B", "Foo", "Bar", "T", "Outer", "String", "Object", "List", "E", "Ünï", "Класс", "漢字", "Ω", "Élan", "$T", "_K", "İ"}
+	lowerNames = []string{"a", "b", "x", "foo", "bar", "value", "i", "it", "$v", "_u", "x1", "getName", "setName", "isOk", "nullable", "get", "set", "is", "main", "test", "of", "переменная", "ünï", "变量", "𝒳y", "ſ", "émile",
+		"getter", "settle", "issue", "get1", "get_", "getX", "setX", "isX", "ge", "se", "g", "$", "$$", "$get", "_set", "gett", "sets", "iss", "ping", "pong", "serve", "handle", "run", "toString", "equals", "hashCode", "length", "out", "println"}
+	upperNames = []string{"A", "B", "Foo", "Bar", "T", "Outer", "String", "Object", "List", "E", "Ünï", "Класс", "漢字", "Ω", "Élan", "$T", "_K", "İ",
+		"NbAlpha", "NbOmega", "NbService", "Test", "Tests", "FooTest", "Util", "StringUtils", "FooService", "Get", "Set", "System", "Thread", "X", "$", "Z9"}
 	ctxKeywords = []string{"module", "open", "requires", "exports", "opens", "to", "uses", "provides", "with", "transitive", "yield", "sealed", "permits", "record", "var"}
-	pkgParts    = []string{"a", "b", "com", "example", "util", "x1", "пакет", "to", "open", "with"}
+	pkgParts    = []string{"a", "b", "com", "example", "util", "x1", "пакет", "to", "open", "with", "zz", "nb", "test", "java", "lang"}
 )
 
 // lname is a variable / field / method / parameter name in a declaring position or after '.'
